@@ -44,7 +44,7 @@ pub fn c13(case_seed: u64, acc: &mut Acc) {
     let case = gen::generate(&mut r, &cfg);
     acc.cases += 1;
     let pr = pp::print(&case.program, &case.layout_opts);
-    let opts = RunOpts { max_steps: 80, probe_after_end: 0, stop_at_error: true, seed: Some(1) };
+    let opts = RunOpts { max_steps: 80, probe_after_end: 0, stop_at_error: true, seed: Some(1), continue_on: None };
     let base = run_text(&pr.text, &case.signals, &case.script, &opts);
     count_events(acc, &base);
     if let Some(f) = first_some(vec![accepted(&base), no_panic(&base)]) {
